@@ -132,6 +132,8 @@ class LibMixin:
         s = self.ev(base_node, st)
         if s.lv is not None:
             raise Unsupported("append to array-backed slice")
+        if self.acc_mode and self.acc_decode(s.rid) is not None:
+            return self.acc_append(s, vals)
         (_, _, oa), = self.region_arrays(st, s)
         W = oa
         for j, v in enumerate(vals):
